@@ -23,6 +23,13 @@
        only sleep), and a panic in any task of the LocalSet makes `Rt::tick`
        panic in the tick whose window contains the panic
        (`UnhandledPanic::ShutdownRuntime`, requires --cfg tokio_unstable).
+   A6  HostTimer::elapsed() = elapsed + now.elapsed() is only meaningful while
+       the host's paused clock is the current tokio clock, i.e. for reads made
+       by host code during its own Rt::tick.  Outside a runtime context (the
+       controller between steps, destructors run by Sim::crash after the
+       runtime is gone) tokio's Instant::elapsed falls back to the wall clock;
+       such reads are outside the model (defect of that kind in Sim::step:
+       /repo 9eeda06).  read_obs records only cover reads of kind A6-valid.
    No proofs in this file. *)
 From TV.Lib Require Import Base.
 From TV.SimCore Require Import Model.
